@@ -188,6 +188,54 @@ class Poison(object):
 
 
 
+class AllocFault(object):
+    """failing allocation: once armed, the n-th call of an allocating NumPy routine made from an aotools frame raises
+    MemoryError (one shot). Calls made by NumPy itself or by anybody else are never touched."""
+    NAMES = ("append", "concatenate", "vstack", "hstack", "zeros", "empty", "zeros_like", "empty_like", "roll", "copy", "array")
+
+    def __init__(self):
+        self.real = dict((n, getattr(numpy, n)) for n in self.NAMES)
+        self.countdown = None
+        self.fired = 0
+        self.seen = 0
+
+    def _wrap(self, name):
+        real = self.real[name]
+        fault = self
+
+        def f(*a, **k):
+            if fault.countdown is not None:
+                try:
+                    inside = sys._getframe(1).f_code.co_filename.startswith(_aotools_dir())
+                except Exception:
+                    inside = False
+                if inside:
+                    fault.seen += 1
+                    if fault.countdown <= 0:
+                        fault.countdown = None
+                        fault.fired += 1
+                        raise MemoryError("injected: Unable to allocate memory for an array (numpy.%s)" % name)
+                    fault.countdown -= 1
+            return real(*a, **k)
+        f.__name__ = name
+        return f
+
+    def arm(self, nth):
+        self.countdown = int(nth)
+
+    def disarm(self):
+        self.countdown = None
+
+    def install(self):
+        self.real = dict((n, getattr(numpy, n)) for n in self.NAMES)       # whatever is there now (possibly Poison's wrappers)
+        for n in self.NAMES:
+            setattr(numpy, n, self._wrap(n))
+
+    def uninstall(self):
+        for n, f in self.real.items():
+            setattr(numpy, n, f)
+
+
 # ---- ambient (global) RNG state -----------------------------------------------------------------------
 def np_global_digest():
     st = numpy.random.get_state()
